@@ -151,4 +151,31 @@ PROPERTIES = {
             part("C11.parallel", race=True, shards={"quick": 4, "thorough": 8}, floor=50),
         ],
     },
+    "C14": {
+        "level": "exploration",
+        "level_text": "in-package model check of the queue (exhaustive up to a length bound for capacities 1..4), reference-model monitor of the event loop over random API programs, and "
+                      "concurrent producers under the race detector with exactly-once / order / drop-report checks and porcupine linearizability on short histories",
+        "level_note": "order among handlers of the same class is not judged; handlers (un)registered during the dispatch of an event are not asserted for that event",
+        "technique": "reference-model monitor + exhaustive small-scope queue check + race detector + porcupine history checking",
+        "exhaustive": True,
+        "rule": "C14: event loop",
+        "parts": [
+            part("C14.queue", target=("test", "core/eventloop"), shards={"quick": 8, "thorough": 16}, floor=1000),
+            part("C14.loop", target=("test", "core/eventloop"), shards={"quick": 8, "thorough": 16}, floor=1000),
+            part("C14.concurrent", target=("test", "core/eventloop"), race=True, shards={"quick": 8, "thorough": 16}, floor=50),
+        ],
+    },
+    "C15": {
+        "level": "exploration",
+        "level_text": "reference-model monitor of the real CommandCache: exhaustive operation sequences over a small alphabet for batch sizes 1..3, random longer sequences, and a concurrent "
+                      "producers/marker/consumers workload under the race detector with exactly-once, order, staleness, conservation and lost-wake-up checks at quiescence",
+        "level_note": "a Get that must block is observed through a 150us deadline (only the context error is a legal outcome); 'blocked although a batch exists' is decided logically and confirmed by a 10s wait",
+        "technique": "reference-model monitor over exhaustive-small and random sequences + race detector + history checks at quiescence",
+        "exhaustive": True,
+        "rule": "C15: command cache",
+        "parts": [
+            part("C15.seq", shards={"quick": 16, "thorough": 16}, floor=1000),
+            part("C15.concurrent", race=True, shards={"quick": 8, "thorough": 16}, floor=20),
+        ],
+    },
 }
